@@ -11,6 +11,8 @@ VAR_DESC = {
     "array": ({"var_names": "x", "var_dims": {"x": ["t"]}, "var_coords": {"t": [0, 1, 2]}}, ["x"]),
     "scalar+array": ({"var_names": ["x", "z"], "var_dims": {"z": ["p", "q"]},
                       "var_coords": {"p": [0, 1], "q": [5, 6]}}, ["x", "z"]),
+    # internal dimension named after a *constant* (recorded as a coordinate)
+    "array-constdim": ({"var_names": "x", "var_dims": {"x": ["t"]}}, ["x"]),
     "bool": ({"var_names": "x"}, ["x"]),
     "str": ({"var_names": ("x",)}, ["x"]),
     "dict": ({"var_names": None}, ["u", "v"]),
@@ -81,6 +83,8 @@ def gen_farmer(tape, role, sweep, root, label="farmer", ext_choice=True):
     rc, res = {}, {}
     for k in list(consts):
         where = tape.choose(3, label + "-const-where")  # 0 sow-time, 1 runner const, 2 resource
+        if where == 0 and os.environ.get("XSIM_NO_SOW_CONST") == "1":
+            where = 1
         if where == 1:
             rc[k] = consts[k]
         elif where == 2:
